@@ -108,7 +108,11 @@ def handle (j : J) : Except String J := do
     let cfg : Cfg := {
       codec := wireCodec
       policy := ← toPolicy (cfgJ.getD "policy")
-      shouldOwn := (match cfgJ.get? "shouldOwn" with | some (.bool b) => b | _ => false)
+      shouldOwn := (match cfgJ.get? "own" with
+        | some (.bool o) =>      -- the model takes the decision itself from (owned, parent's namespace, namespace)
+          shouldOwnOf o (match cfgJ.getD "parentNs" with | .str s => some s | _ => none)
+            (match cfgJ.getD "ns" with | .str s => some s | _ => none)
+        | _ => (match cfgJ.get? "shouldOwn" with | some (.bool b) => b | _ => false))
       ownerRef := ← toJVal (cfgJ.getD "ownerRef")
       createEnabled := (match cfgJ.get? "createEnabled" with | some (.bool b) => b | _ => true)
       createDelay := ← toJVal (cfgJ.getD "createDelay")
